@@ -15,7 +15,7 @@ import (
 
 // idxOp is one operation of an index history.
 type idxOp struct {
-	// Kind: add | build | reset | contains | crossings | closest | cells | counts | locate
+	// Kind: add | build | reset | contains | crossings | closest | cells | counts | locate | region
 	Kind  string
 	Shape int    // add: pool position
 	P     gen.P  // contains: the point; crossings: edge start
@@ -81,6 +81,9 @@ func genIndexHistory(t *rapid.T) idxHistory {
 				cfg.Limit = drawLimit(t, l+".limit", ts, verts)
 			}
 			op = idxOp{Kind: "closest", T: ts, Cfg: cfg, M: rapid.SampledFrom([]string{"FindEdges", "FindEdges", "Distance"}).Draw(t, l+".m")}
+		case k == 18 && rapid.Bool().Draw(t, l+".region"):
+			// bounds through ONE long-lived ShapeIndexRegion (taken at its first use)
+			op = idxOp{Kind: "region"}
 		case k == 18:
 			op = idxOp{Kind: "cells"}
 			if rapid.Bool().Draw(t, l+".locate") {
@@ -183,6 +186,7 @@ func checkIndexHistory(c idxHistory) ev.Outcome {
 func runIndexHistory(c idxHistory) ev.Outcome {
 	o := ev.Outcome{}
 	hist := s2.NewShapeIndex()
+	var histRegion *s2.ShapeIndexRegion
 	var model []int
 	var hs []s2.Shape
 	built := false       // the index has been built since the last structural change and is non-empty
@@ -285,6 +289,18 @@ func runIndexHistory(c idxHistory) ev.Outcome {
 					out.Finding = findingOptimizedVsBrute
 					return out
 				}
+			}
+		case "region":
+			if histRegion == nil {
+				histRegion = hist.Region()
+			}
+			fr := fresh.Region()
+			if g, w := fmt.Sprint(histRegion.CellUnionBound()), fmt.Sprint(fr.CellUnionBound()); g != w {
+				msg = fmt.Sprintf("long-lived ShapeIndexRegion.CellUnionBound() = %s, fresh index's region says %s", g, w)
+			} else if g, w := histRegion.RectBound(), fr.RectBound(); g != w {
+				msg = fmt.Sprintf("long-lived ShapeIndexRegion.RectBound() = %v, fresh %v", g, w)
+			} else if g, w := histRegion.CapBound(), fr.CapBound(); g != w {
+				msg = fmt.Sprintf("long-lived ShapeIndexRegion.CapBound() = %v, fresh %v", g, w)
 			}
 		case "cells":
 			msg = compareCells(hist, fresh)
